@@ -17,6 +17,7 @@ Definition l1_op (d : wdecl) (o : op) : bool :=
                 | OToDirect LWorld KEnt TAny (RRaw key ver) => (key <? 2^32)%N && (ver <? 2^32)%N
                 | OToDirect (LArch b) KEnt TAny (RRaw key ver) => (b <? length (wd_archs d)) && (key <? 2^32)%N && (ver <? 2^32)%N
                 | OConv KEnt (RRaw key ver) => true
+                | ODump a => true
                 | _ => false
                 end.
 
@@ -498,7 +499,7 @@ Lemma rel_step1 cfg d qs st sst o : wrapping cfg = false -> wf_decl d -> NoDup (
 Proof.
   intros Hwr Hwf Hnd HR Hl1. destruct (l0_op d o) eqn:Hl0; [by apply rel_step|].
   unfold l1_op in Hl1. rewrite Hl0 in Hl1. cbn [orb] in Hl1.
-  destruct o as [| | | | | |l k t r|l k t r|l k t r| | | | | | | | | | | | |k0 r0|]; try done.
+  destruct o as [| | | | | |l k t r|l k t r|l k t r| | | | | | |da| | | | | |k0 r0|]; try done.
   - destruct k; [|by destruct l]. destruct t; try (by destruct l). destruct r as [|?|key ver]; try (by destruct l).
     destruct l as [|b].
     + apply andb_true_iff in Hl1 as [H1 H2]. apply N.ltb_lt in H1, H2. by apply rel_step_destroy_raw.
@@ -517,6 +518,17 @@ Proof.
     + apply andb_true_iff in Hl1 as [H1 H2]. apply N.ltb_lt in H1, H2. by apply rel_step_todirect_raw.
     + apply andb_true_iff in Hl1 as [H0 H2]. apply andb_true_iff in H0 as [H0 H1]. apply N.ltb_lt in H1, H2. apply Nat.ltb_lt in H0.
       by apply rel_step_todirect_raw.
+  - (* the raw dump of a storage (the hook the harness reads): the oracle does not read it *)
+    destruct (rel_cur d st sst HR) as (w & sw & Hw & Hsw & Hcw & Hcsw & HWI & Harch).
+    assert (Hsp : forall obs, spec_step cfg d qs sst (ODump da) obs = inr sst) by (intros obs; cbn [spec_step]; by rewrite Hcsw).
+    cbn [step]. rewrite Hcw.
+    destruct (w !! da) as [s|] eqn:Hs; [|exists st, [8%N], sst; by split_and!].
+    assert (HI : Inv s).
+    { destruct (lookup_lt_is_Some_2 (wd_archs d) da) as [ad Had].
+      - rewrite (Forall2_length _ _ _ HWI). by eapply lookup_lt_Some.
+      - destruct (Harch da ad Had) as (s2 & x & Hs2 & _ & _ & (HI & _)). congruence. }
+    rewrite (i_lslots s HI), (i_lents s HI), !Nat.leb_refl. cbn [negb orb ret].
+    eexists st, _, sst. split_and!; [done|done|apply Hsp|done].
   - (* the handle conversions: no state *)
     destruct k0; [|done]. destruct r0 as [|?|key ver]; try done.
     pose proof (conv_step_accepted cfg d qs st sst key ver) as Hc.
